@@ -18,7 +18,8 @@ struct c16_out {
     struct c16_snap before[NSNAP], after[NSNAP];
 };
 
-/* ---- valid arguments.  shape bit 0: small / empty, bit 1: second flavour */
+/* ---- valid arguments.  shape bit 0: empty / filled companions, bits 1-2: which integer (0, 1, 7, -3), bit 1 also: second flavour */
+static long c16_int(int shape) { static const long v[] = { 0, 1, 7, -3 }; return v[(shape >> 1) & 3]; }
 static const char *word(int shape, int i) { static const char *w[] = { "alpha", "", "b", "gamma-delta" }; return w[(shape + i) & 3]; }
 static void *mk_str(int shape, int i) { return spif_str_new_from_ptr((spif_charptr_t) word(shape, i)); }
 static void *mk_ustr(int shape, int i) { return spif_ustr_new_from_ptr((spif_charptr_t) word(shape, i)); }
@@ -70,7 +71,7 @@ static void *c16_slot(void *cls, int idx) { return ((void **) cls)[idx]; }
 #include "cells.inc"
 
 static struct c16_out out;
-int c16_init(long level) { ht_install(); libast_debug_level = (unsigned int) level; return 1; }
+int c16_init(long level, int silent) { ht_install(); libast_debug_level = (unsigned int) level; libast_set_silent(silent ? TRUE : FALSE); return 1; }
 /* -> 0 done, -1 no such call / cell */
 int c16_call(int fi, int mask, int shape)
 {
